@@ -85,6 +85,10 @@ func main() {
 		sweepCmd(os.Args[2:])
 	case "check":
 		os.Exit(checkCmd(os.Args[2:]))
+	case "replay":
+		os.Exit(replayCmd(os.Args[2:]))
+	case "copyreplay":
+		os.Exit(copyReplayAll(os.Args[2:]))
 	default:
 		fmt.Fprintln(os.Stderr, "unknown command", os.Args[1])
 		os.Exit(2)
